@@ -116,6 +116,34 @@ func mutateInfo(T *gen.Torrent, muts []MetaMut, r *simrt.Rand) []byte {
 			info["name"] = bytes.Repeat([]byte("n"), m.N)
 		case "name_empty":
 			info["name"] = []byte("")
+		case "huge_consistent":
+			// a well-formed description of a very large torrent: few, large pieces
+			pl := int64(1) << uint(20+m.N%11) // 1 MiB .. 1 GiB
+			total := m.Int
+			if total <= 0 {
+				total = 1<<32 + 12345
+			}
+			np := (total + pl - 1) / pl
+			if np > 3000 {
+				pl = (total + 2999) / 3000
+				pl = (pl + 16383) / 16384 * 16384
+				np = (total + pl - 1) / pl
+			}
+			info["piece length"] = pl
+			info["pieces"] = string(r.Bytes(int(np) * 20))
+			if fl := files(); len(fl) > 0 {
+				// everything into one file of the list, the others empty
+				for i, f := range fl {
+					if d, ok := f.(map[string]any); ok {
+						d["length"] = int64(0)
+						if i == m.File%len(fl) {
+							d["length"] = total
+						}
+					}
+				}
+			} else {
+				info["length"] = total
+			}
 		case "many_files":
 			var fl []any
 			for i := 0; i < m.N; i++ {
@@ -156,7 +184,8 @@ func RunMetainfo(env *Env, plan *MetaPlan) {
 	simrt.Count("fault.metainfo.route."+plan.Route, 1)
 	host := env.NewHost("sut", "sut")
 	fs := simfs.New("sut", env.R.Uint64())
-	fs.Quota = 256 << 20
+	fs.Quota = 64 << 20
+	fs.Sparse = true // huge files exist as sizes only
 	sut, err := env.StartNode(host, fs, "", plan.K)
 	if err != nil {
 		panic("harness: cannot start SUT: " + err.Error())
@@ -188,7 +217,7 @@ func RunMetainfo(env *Env, plan *MetaPlan) {
 		T2.InfoBytes = info
 		T2.InfoHash = sha1.Sum(info)
 		b := refbt.Behavior{Fast: true, Ext: true, Have: refbt.NewBits(T.NumPieces), Announce: "bitfield", MetaMode: "honest"}
-		a := &PeerActor{Spec: PeerSpec{Name: "m0", B: b, Mode: "listen"}, Host: env.NewHost("m0", "peer"), T: &T2, Seed: env.R.Uint64(), NoChecks: true}
+		a := &PeerActor{Spec: PeerSpec{Name: "m0", B: b, Mode: "listen"}, Host: env.NewHost("m0", "peer"), T: &T2, Seed: env.R.Uint64(), NoChecks: true, NoWireChecks: true}
 		a.Listen()
 		a.Start()
 		defer a.Stop()
@@ -326,7 +355,7 @@ func init() {
 		keys := []string{"name", "piece length", "pieces", "length", "files", "private"}
 		n := r.Range(0, 3)
 		for i := 0; i < n; i++ {
-			m := MetaMut{Kind: simrt.Pick(r, []string{"length", "length", "length", "piece_length", "piece_length", "pieces_cut", "pieces_grow", "type", "delete", "both", "files_empty", "path", "nest", "huge_name", "name_empty", "many_files", "flip", "truncate", "dupkey", "append"}), File: r.Intn(8), Int: simrt.Pick(r, ints), Key: simrt.Pick(r, keys)}
+			m := MetaMut{Kind: simrt.Pick(r, []string{"length", "length", "length", "piece_length", "piece_length", "pieces_cut", "pieces_grow", "type", "delete", "both", "files_empty", "path", "nest", "huge_consistent", "huge_consistent", "huge_name", "name_empty", "many_files", "flip", "truncate", "dupkey", "append"}), File: r.Intn(8), Int: simrt.Pick(r, ints), Key: simrt.Pick(r, keys)}
 			switch m.Kind {
 			case "pieces_cut", "pieces_grow":
 				m.N = simrt.Pick(r, []int{1, 19, 20, 40, 20 * 1000})
@@ -344,6 +373,9 @@ func init() {
 				m.N = r.Range(1, 100)
 			case "path":
 				m.N = r.Intn(4)
+			case "huge_consistent":
+				m.N = r.Intn(11)
+				m.Int = simrt.Pick(r, []int64{1<<32 + 12345, 1 << 32, 1<<32 - 1, 1<<33 + 7, 1 << 40, 1<<31 + 1, 5 << 30})
 			}
 			mp.Muts = append(mp.Muts, m)
 		}
